@@ -269,13 +269,13 @@ pub fn short_streams(r: &mut Rng, fam: Fam, maxlen: usize) -> Vec<Vec<u8>> {
 
 pub fn c05(ctx: &mut Ctx, layer: &str) {
     let (maxlen, n_rand): (usize, usize) = match layer {
-        "miri" => (4, 24),
+        "miri" => (if ctx.thorough { 4 } else { 3 }, if ctx.thorough { 4_000 } else { 120 }),
         "vg" => (6, 10_000),
         _ => {
             if ctx.thorough {
                 (10, 5_000_000)
             } else {
-                (7, 120_000)
+                (7, 500_000)
             }
         }
     };
@@ -523,10 +523,10 @@ fn short_out(o: &DecOut) -> String {
 pub fn c07(ctx: &mut Ctx, layer: &str) {
     let mut sz = crate::mon::valid::sizes(ctx, layer);
     match layer {
-        "miri" => sz.g1 = 4,
+        "miri" => sz.g1 = if ctx.thorough { 600 } else { 40 },
         "vg" => sz.g1 = 300,
         _ => {
-            sz.g1 = if ctx.thorough { 1_000_000 } else { 12_000 };
+            sz.g1 = if ctx.thorough { 1_000_000 } else { 60_000 };
             sz.g2_cap = if ctx.thorough { 4096 } else { 256 };
         }
     }
@@ -706,13 +706,13 @@ fn c08_sequence(c: &mut Ctx, r: &mut Rng, fam: Fam, seq: &[RP]) {
 
 pub fn c08(ctx: &mut Ctx, layer: &str) {
     let nseq: usize = match layer {
-        "miri" => 4,
+        "miri" => if ctx.thorough { 600 } else { 40 },
         "vg" => 400,
         _ => {
             if ctx.thorough {
                 2_000_000
             } else {
-                20_000
+                200_000
             }
         }
     };
@@ -1015,7 +1015,7 @@ pub fn c14(ctx: &mut Ctx, layer: &str) {
     let mut sz = crate::mon::valid::sizes(ctx, layer);
     match layer {
         "miri" => {
-            sz.g1 = 2;
+            sz.g1 = if ctx.thorough { 200 } else { 16 };
             sz.g3 = vec![];
         }
         "vg" => {
@@ -1023,7 +1023,7 @@ pub fn c14(ctx: &mut Ctx, layer: &str) {
             sz.g3 = vec![];
         }
         _ => {
-            sz.g1 = if ctx.thorough { 100_000 } else { 1_600 };
+            sz.g1 = if ctx.thorough { 100_000 } else { 8_000 };
             sz.g2_cap = if ctx.thorough { 512 } else { 48 };
             sz.g3 = vec![127, 128, 16_383, 16_384];
         }
